@@ -25,9 +25,9 @@
                      regression theorem on the program that exhibited the finding.)
                    * apply(g): g is the function (same tree) of the first earlier by-name mention with that name
                      (modelling constraint, C01_refuted_apply_unlinked).
-   - u_text      equal source lines => equal skeleton (tag, raises, parameters, is_class, and for the executed body the
-                 list of steps up to line numbers, paths, callee sub-trees and ALit/ARun flags: kinds, argument
-                 expressions, keyword names, target of apply).  True of generated programs: the skeleton is parsed from
+   - u_text      equal source lines => equal skeleton (tag, raises, parameters, is_class, decorator path, and for the
+                 executed body the list of steps up to line numbers, callee sub-trees and ALit/ARun flags: kinds, argument
+                 expressions, keyword names, literal paths of dds.keep / dds.load, target of apply).  True of generated programs: the skeleton is parsed from
                  the text.
    - u_prefix    the same for a source PREFIX ending at a call (the call-site context hashes only the lines up to the
                  call): equal prefixes + same rank among the analysed interactions => same parameters and same skeleton
